@@ -54,8 +54,8 @@ Lemma scalar_keeps_target_quoting :
   kmerge quot_patch quot_target = Ok (Some (Map [("spec", Map [("beta", Scalar TFloat SDouble "0.5")])])).
 Proof. vm_compute. reflexivity. Qed.
 
-(* ---- composite merge key: "$patch: delete" on a port written without protocol is ignored when another element
-        spells a protocol (finding C04/reference/composite-key-delete-ignored-when-protocol-spelled-elsewhere) ---- *)
+(* ---- composite merge key: "$patch: delete" on a port written without protocol removes it, also when another element
+        spells a protocol (was finding C04/reference/composite-key-delete-ignored-when-protocol-spelled-elsewhere) ---- *)
 Definition svc_schema : sroots :=
   [("Service", "v1", ST "" [] [("spec", ST "" [] [("ports", ST "merge" ["port"; "protocol"] [] [ST "" [] [] []])] [])] [])].
 Definition svc (ports : list node) : node :=
@@ -66,14 +66,9 @@ Definition cd_t : node := svc [cd_port53; cd_port80].
 Definition cd_p : node := svc [Map [("port", Scalar TInt SPlain "53"); ("$patch", Scalar TStr SPlain "delete")]].
 Definition smerge (p t : node) : res (option node) :=
   merge2 (tree_schema svc_schema) kopts (fun _ => false) (Some p) (Some t).
-Lemma composite_delete_ignored : smerge cd_p cd_t = Ok (Some cd_t).
-Proof. vm_compute. reflexivity. Qed.
-(* without the second element the same deletion works *)
-Lemma composite_delete_alone : smerge cd_p (svc [cd_port53]) = Ok (Some (Map [("apiVersion", Scalar TStr SPlain "v1"); ("kind", Scalar TStr SPlain "Service"); ("spec", Map [("ports", Seq [])])])).
-Proof. vm_compute. reflexivity. Qed.
-Lemma composite_delete_refuted :
-  smerge cd_p cd_t = Ok (Some cd_t) /\
+Lemma composite_delete_works :
+  smerge cd_p cd_t = Ok (Some (svc [cd_port80])) /\
   smerge cd_p (svc [cd_port53]) =
   Ok (Some (Map [("apiVersion", Scalar TStr SPlain "v1"); ("kind", Scalar TStr SPlain "Service");
                  ("spec", Map [("ports", Seq [])])])).
-Proof. exact (conj composite_delete_ignored composite_delete_alone). Qed.
+Proof. split; vm_compute; reflexivity. Qed.
